@@ -75,6 +75,27 @@ public:
     }
   }
 
+  /// Set a key in the environment, replacing any existing definition.
+  void set(StringRef key, StringRef value) {
+    assert(!isFrozen);
+    llvm::SmallString<256> assignment;
+    assignment += key;
+    assignment += '=';
+    assignment += value;
+    assignment += '\0';
+    if (keys.insert(key).second) {
+      envStorage.emplace_back(assignment.str());
+      return;
+    }
+    for (auto& entry: envStorage) {
+      if (entry.size() > key.size() && entry[key.size()] == '=' &&
+          StringRef(entry).startswith(key)) {
+        entry = assignment.str();
+        return;
+      }
+    }
+  }
+
 #if defined(_WIN32)
   /// Get a Windows style environment pointer.
   ///
